@@ -9,7 +9,7 @@ from vf import Ob, V, pick
 from vf.modelsql import DB, Crash, Ctl, FakeDatetime, FakeSqlite
 
 FP = ["sha256:" + "a" * 64, "sha256:" + "b" * 64]
-H = ["a.example", "b.example"]
+H = ["a_b.example", "a-b.example"]        # look-alikes: "_" is a wildcard in SQL LIKE, "-" a literal
 KEYS = [(H[0], 1965), (H[0], 7000), (H[1], 1965)]
 NOW = "2026-01-01T00:00:00+00:00"
 MAXK = 14
@@ -138,8 +138,8 @@ def _mk(kinds):
 
 
 FILE = {"hosts": {
-    "a.example:1965": dict(hostname=H[0], port=1965, fingerprint=FP[1], first_seen="t-file", last_seen="t-file"),
-    "b.example:7000": dict(hostname=H[1], port=7000, fingerprint=FP[0], first_seen="t-file", last_seen="t-file"),
+    "a_b.example:1965": dict(hostname=H[0], port=1965, fingerprint=FP[1], first_seen="t-file", last_seen="t-file"),
+    "a-b.example:7000": dict(hostname=H[1], port=7000, fingerprint=FP[0], first_seen="t-file", last_seen="t-file"),
 }}
 
 
@@ -394,6 +394,9 @@ def modelsql_valid():
          ("x", 0, "INSERT INTO known_hosts (hostname, port, fingerprint, first_seen, last_seen) VALUES (:h, :p, :fp, :now, :now) "
                   "ON CONFLICT (hostname, port) DO UPDATE SET fingerprint = :fp", {"h": "new", "p": 2, "fp": A, "now": "n4"}),
          ("c", 0), ("x", 1, selall, ())],
+        [("x", 0, ins, ("a_b", 1, A, "f", "l")), ("x", 0, ins, ("a-b", 1, A, "f", "l")), ("x", 0, ins, ("A_B", 2, A, "f", "l")), ("c", 0),
+         ("x", 0, "SELECT COUNT(*) FROM known_hosts WHERE hostname LIKE ?", ("a_b",)),
+         ("x", 0, "DELETE FROM known_hosts WHERE hostname LIKE ?", ("a_b",)), ("c", 0), ("x", 1, selall, ())],
     ]
     n = 0
     bad = []
